@@ -3,29 +3,16 @@
 import json
 import os
 import subprocess
+import sys
 
 VERIF = os.path.dirname(os.path.dirname(os.path.abspath(__file__)))
-B2 = "TLA+ model checking (TLC) of the transcribed algorithm + TLC-generated behaviours replayed on the implementation"
-B1 = "TLA+ trace validation (TLC) of recorded executions of the implementation + TLC model checking of the spec"
 
-CHECKS = {
- "C07": dict(
-  text="TLC explores both compatibility walks (transcribed from the code) on every pair of gene lists over K innovation numbers and checks them against the NEAT definition (plus termination and progress); every explored pair, plus structured long pairs, is replayed on the real code (both methods, both orders, 6 coefficient vectors, 3 scalings) against the counters the specification assigns.",
-  note="Exhaustive within K<=4 (quick) / K<=5 (thorough) innovation numbers and mutation numbers {0,1,3}; long lists only by structured families up to 40 genes. Trusted: TLC, the projection <<E,D,S,M>> -> float formula in the replayer.",
-  technique=B2, ref="DESIGN.md 7/C07"),
- "C14": dict(
-  text="TLC model-checks the depth search (transcribed from NNode.Depth with its persistent traversal marks) over every link set of a small node scope and every query sequence with caps: longest-path equality on DAGs, termination/bounds on cyclic graphs, the cap law, clean marks and repeat-stability are invariants; every finished behaviour (and simulated behaviours on larger graphs with arbitrary incoming order) is replayed on real networks with result, error and marks compared after each query.",
-  note="Exhaustive for 1 sensor + 3 neurons (quick), 4 neurons with <= 7 links (thorough); larger graphs by TLC simulation only. Termination decided by a 5 s watchdog. Trusted: TLC, the harness' network construction.",
-  technique=B2, ref="DESIGN.md 7/C14"),
- "C19": dict(
-  text="The statistics are specified as exact integer/rational definitions; TLC checks their laws (ordering of quantiles, permutation invariance, variance zero iff constant, ...) on every series in scope and emits every series in every order, the empty series and every experiment in scope with the values the definitions assign; the replayer builds real Floats / Experiment / Trial / Generation values and compares every accessor.",
-  note="Exhaustive for series over 4 values up to length 4 (quick) / 5 values up to length 6 (thorough) at three power-of-two scalings, experiments up to 2x2 (quick) / 3x2 (thorough) trials x generations. Floating-point tolerance 1e-12 only where a division is involved. Trusted: TLC, the replayer's construction of experiment records.",
-  technique=B2, ref="DESIGN.md 7/C19"),
- "C20": dict(
-  text="Experiment.Execute is specified as a step machine (one action per step visible to evaluator, observer or caller); the protocol clauses of C20 are invariants over its logs, checked by TLC for every script of outcomes (ok / solved / evaluator error / context cancelled while evaluating, with and without solved) in scope with and without an observer; every behaviour is replayed through the real Execute with a scripted evaluator and a recording observer under both epoch executors and compared log for log.",
-  note="Exhaustive for 2x2, 1x3, 3x1, 2x0 (quick) plus 2x3 (thorough) trials x generations. Population freshness and turnover are observed through pointer identity of populations and organisms. Trusted: TLC, the scripted evaluator/observer.",
-  technique=B2, ref="DESIGN.md 7/C20"),
-}
+sys.path.insert(0, os.path.dirname(os.path.abspath(__file__)))
+import pipelines  # noqa: E402
+
+CHECKS = {}
+for _m in pipelines.load_all():
+    CHECKS.update(getattr(_m, "CHECKS", {}))
 
 ALL = [json.loads(l)["id"] for l in open(os.path.join(VERIF, "properties.jsonl"))]
 
